@@ -8,6 +8,8 @@
 //	      n<err 0 ok|1 error|2 panic> n<exist> x<result bytes> n<reference accepted 0|1>
 //	path := n<#steps> { n1 n<id> | n2 x<name> | n3 n<index> | n4 x<str key> | n5 n<int key (Go int)> }
 // check 1002  x<b0> n<recurse> n<err> x<marshalled> n<reference accepted>
+// check 1003  tree REUSE: schema x<bA> x<bB> n<recurse A> n<recurse B> n<mode 0 same PathNode|1 pooled node|2 A,B,A on one node>
+//             n<err> x<marshalled after the LAST load> n<reference accepted>; the last message loaded is bB (mode 2: bA)
 //
 // The harness never decides what is expected: the next path is chosen from what the REFERENCE decoder reports for the
 // current bytes; the Gallina side decodes every buffer itself.
@@ -15,6 +17,8 @@ package main
 
 import (
 	"encoding/binary"
+	"fmt"
+	"os"
 	"math/big"
 
 	"github.com/cloudwego/dynamicgo/proto"
@@ -263,6 +267,48 @@ func (g *c10Gen) walk(cur *pgVal, msgName string, wantDepth int) *c10Target {
 	}
 }
 
+// a smaller variant of message v: fields dropped, sub-messages emptied (present, no field), lists / maps shortened
+func c10Prune(r *rng, v *pgVal) *pgVal {
+	out := &pgVal{Tag: 1, Kind: pgKMessage}
+	one := func(e *pgVal) *pgVal {
+		if e.Tag != 1 {
+			return e
+		}
+		if r.chance(40) {
+			return &pgVal{Tag: 1, Kind: pgKMessage}
+		}
+		return c10Prune(r, e)
+	}
+	for _, fv := range v.Fields {
+		if r.chance(25) {
+			continue
+		}
+		switch fv.V.Tag {
+		case 1:
+			out.Fields = append(out.Fields, pgFV{F: fv.F, V: one(fv.V)})
+		case 4:
+			n := 1 + r.intn(len(fv.V.Elems))
+			l := &pgVal{Tag: 4, Kind: fv.V.Kind, Packed: fv.V.Packed}
+			for _, e := range fv.V.Elems[:n] {
+				l.Elems = append(l.Elems, one(e))
+			}
+			out.Fields = append(out.Fields, pgFV{F: fv.F, V: l})
+		case 5:
+			m := &pgVal{Tag: 5, Kind: fv.V.Kind, KeyKind: fv.V.KeyKind}
+			for i, kv := range fv.V.Entries {
+				if i > 0 && r.chance(40) {
+					continue
+				}
+				m.Entries = append(m.Entries, pgKV{K: kv.K, V: one(kv.V)})
+			}
+			out.Fields = append(out.Fields, pgFV{F: fv.F, V: m})
+		default:
+			out.Fields = append(out.Fields, fv)
+		}
+	}
+	return out
+}
+
 func c10Path(steps []c10Step) ([]generic.Path, []string) {
 	ps := make([]generic.Path, 0, len(steps))
 	fsx := []string{fi(len(steps))}
@@ -299,7 +345,7 @@ func c10ErrClass(ok bool, err error) int {
 }
 
 func genC10(r *rng, n int) {
-	nh := n / 6
+	nh := n / 8
 	if nh < 6 {
 		nh = 6
 	}
@@ -340,6 +386,83 @@ func genC10(r *rng, n int) {
 			fl := append([]string{}, schemaF...)
 			fl = append(fl, fx(b0), fb(rec), fi(c10ErrClass(ok, lerr)), fx(outb), fi(acc))
 			out.emit(1002, fl...)
+		}
+
+		// ---- tree reuse: load A, then load B into the same / a pooled PathNode, marshal
+		for k := 0; k < 3; k++ {
+			var vb *pgVal
+			if sr.chance(75) {
+				vb = c10Prune(sr, val)
+			} else {
+				vb = genProtoValue(sr, c, s.Root, 0)
+			}
+			bB, err := c.encodeRef(vb, s.Root)
+			if err != nil {
+				continue
+			}
+			recA, recB, mode := sr.chance(80), sr.chance(80), sr.intn(3)
+			var outb []byte
+			var lerr error
+			emit := true
+			ok, pmsg := noPanic(func() {
+				load := func(pn *generic.PathNode, b []byte, rec bool) error {
+					pn.Node = generic.NewNode(proto.MESSAGE, append([]byte(nil), b...))
+					return pn.Load(rec, opts, c.Dyn)
+				}
+				// the state of the tree must be known to the model: a zeroed node (mode 1: a pooled one, zeroed), then A
+				pn := &generic.PathNode{}
+				if mode == 1 {
+					pn = generic.NewPathNode()
+					*pn = generic.PathNode{}
+				}
+				if e := load(pn, b0, recA); e != nil {
+					emit = false // defects of a fresh load are covered by check 1002
+					return
+				}
+				if sr.chance(50) {
+					pn.Marshal(opts)
+				}
+				if mode == 1 {
+					generic.FreePathNode(pn)
+					pn2 := generic.NewPathNode()
+					if pn2 != pn {
+						emit = false // the pool handed out another node: its history is unknown
+						return
+					}
+				}
+				if lerr = load(pn, bB, recB); lerr != nil {
+					return
+				}
+				if mode == 2 {
+					if _, lerr = pn.Marshal(opts); lerr != nil {
+						return
+					}
+					if lerr = load(pn, b0, recA); lerr != nil {
+						return
+					}
+				}
+				outb, lerr = pn.Marshal(opts)
+			})
+			if !ok && debugErr {
+				fmt.Fprintf(os.Stderr, "C10 reuse panic: %s\n", pmsg)
+			}
+			if !emit {
+				continue
+			}
+			last := bB
+			if mode == 2 {
+				last = b0
+			}
+			_ = last
+			acc := 0
+			if ok && lerr == nil {
+				if _, e := c.dumpRef(outb, s.Root); e == nil {
+					acc = 1
+				}
+			}
+			fl := append([]string{}, schemaF...)
+			fl = append(fl, fx(b0), fx(bB), fb(recA), fb(recB), fi(mode), fi(c10ErrClass(ok, lerr)), fx(outb), fi(acc))
+			out.emit(1003, fl...)
 		}
 
 		// ---- edit history
